@@ -67,6 +67,6 @@ Definition conv_ssa_vtt_m (d : adoc) : vdoc :=
 (* escapeHTML works on each run separately: putting the texts together before escaping gives the same bytes unless a run
    ends with the byte 0xC2 and the next one starts with 0xA0 (the two halves of a no-break space: impossible when every
    run text is valid UTF-8, 0xC2 being a lead byte) *)
-Definition ends_c2 (t : str) : bool := match rev t with 194%N :: _ => true | _ => false end.
+Definition ends_c2 (t : str) : bool := (last t 0 =? 194)%N.
 Definition ssavtt_join_ok (d : adoc) : bool :=
   forallb (fun i => forallb (fun l => forallb (fun r => negb (ends_c2 (ar_text r))) (al_runs l)) (ai_lines i)) (ad_items d).
